@@ -115,6 +115,12 @@ func runHedge(t *testing.T, h HCase) (lit string, js map[string]any, hedged int,
 			return a.Out.Go()
 		})
 		end := now()
+		if ctx.Err() != nil {
+			// the caller's context is done: context.cancel closes the parent's Done channel (which wakes the hedge loop)
+			// BEFORE it walks its children, so the attempts' contexts are cancelled a moment after the call may
+			// already have returned; let that propagation finish before sampling them
+			synctest.Wait()
+		}
 		mu.Lock()
 		cs := make([]string, len(execs))
 		for i, e := range execs {
